@@ -109,7 +109,7 @@ Lemma evals_len : forall k ws prev c, length prev = k ->
 Proof.
   induction ws as [|a ws IH]; intros prev c Hp Hf Hc.
   - cbn [length] in Hc. assert (Hc0 : c = 0%nat) by lia. subst c. exact Hp.
-  - inversion Hf; subst. destruct c as [|c]; [exact Hp|].
+  - apply Forall_cons_iff in Hf. destruct Hf as [Hx Hl]. destruct c as [|c]; [exact Hp|].
     cbn [evals nth]. cbn [length] in Hc.
     apply (IH (weff k prev a) c); auto; [apply weff_len; auto|lia].
 Qed.
@@ -199,7 +199,7 @@ Section Single.
     unfold wmicro in Hstep.
     destruct (wq w) as [|c q] eqn:Eq.
     { inversion Hstep; subst. split; [|lia]. unfold WInv. rewrite Eq.
-      repeat split; auto. intros; discriminate. }
+      repeat split; auto; try (intros; discriminate). }
     symmetry in Hq. pose proof (skipn_cons_nth_error _ _ _ _ Hq) as (Hv & Hq' & Hd).
     pose proof (val_succ _ _ Hv) as Hv'.
     assert (Ld : length (val (wdone w)) = k) by (apply val_len; lia).
@@ -223,7 +223,7 @@ Section Single.
       inversion Hstep; subst; clear Hstep. split; [|lia].
       unfold WInv; cbn [wpc wi wq wdone seq mem Nat.eqb].
       repeat split; auto; try lia; try congruence.
-      intros hd q0 E. inversion E; subst. right; reflexivity.
+      all: try (intros hd q0 E; right; reflexivity).
     - (* pc 2: one word of the closure (or its panic) *)
       destruct (Nat.ltb_spec (S i) (wlim k c)) as [Hlt|Hge].
       + assert (Hi' : (i < wlim k c)%nat) by lia.
@@ -253,20 +253,20 @@ Section Single.
         inversion Hstep; subst; clear Hstep. split; [|rewrite Hseq'; lia].
         unfold WInv; cbn [wpc wi wq wdone Nat.eqb]. rewrite Hseq', Hfin.
         repeat split; auto; try lia; try congruence.
-        intros hd q0 E. right; reflexivity.
+        all: try (intros hd q0 E; right; reflexivity).
     - (* pc 3: fence *)
       inversion Hstep; subst; clear Hstep. split; [|lia].
       unfold WInv; cbn [wpc wi wq wdone seq mem Nat.eqb].
       repeat split; auto; try lia; try congruence.
-      intros hd q0 E. right; reflexivity.
+      all: try (intros hd q0 E; right; reflexivity).
     - (* pc 4: closing fetch_add, then WResume: the call returns (or re-raises) *)
       assert (Hret : (s', w') = (mkS (seq s + 1) (mem s), mkW 0 0 q (S d) false)).
       { rewrite <- Hstep. destruct pan; reflexivity. }
       inversion Hret; subst; clear Hstep Hret. split; [|cbn [seq]; lia].
       unfold WInv; cbn [wpc wi wq wdone seq mem Nat.eqb].
       repeat split; auto; try lia; try congruence.
-      * cbn [Nat.eqb] in Hseq. lia.
-      * intros hd q0 E. right; reflexivity.
+      all: try (cbn [Nat.eqb] in Hseq; lia).
+      all: try (intros hd q0 E; right; reflexivity).
   Qed.
 
   (* the readers' steps *)
@@ -425,11 +425,11 @@ End Single.
 
 (* ---------- the decidable checker ---------- *)
 
-Lemma ev_okb_sound : forall init writes e,
-  ev_okb init writes e = true <->
-  exists c, (e_c0 e <= c <= e_done e)%nat /\ e_val e = value init writes c.
+Lemma ev_okb_sound : forall k init writes e,
+  ev_okb k init writes e = true <->
+  exists c, (e_c0 e <= c <= e_done e)%nat /\ e_val e = value k init writes c.
 Proof.
-  intros init writes e. unfold ev_okb. rewrite existsb_exists. split.
+  intros k init writes e. unfold ev_okb. rewrite existsb_exists. split.
   - intros (c & Hin & Hc). apply in_seq in Hin. apply andb_true_iff in Hc.
     destruct Hc as [H1 H2]. apply Nat.leb_le in H1. apply listN_eqb_eq in H2.
     exists c. split; [lia|exact H2].
@@ -438,7 +438,7 @@ Proof.
 Qed.
 
 Lemma ev_completeb_sound : forall init wqs e,
-  ev_completeb init wqs e = true <-> In (e_val e) (init :: concat wqs).
+  ev_completeb init wqs e = true <-> In (e_val e) (init :: map fst (concat wqs)).
 Proof.
   intros. unfold ev_completeb. rewrite existsb_exists. split.
   - intros (v & Hin & Hv). apply listN_eqb_eq in Hv. subst. exact Hin.
@@ -472,36 +472,37 @@ Definition demo_sched : list tid :=
 
 Example demo_nonvacuous :
   map (fun e => (e_c0 e, e_done e, e_val e))
-      (log (run 2 write_prog read_prog (init_state seq_init [7; 7] [[[1; 1]; [2; 2]]] 1) demo_sched))
+      (log (run 2 write_prog read_prog (init_state seq_init [7; 7] [[([1; 1], None); ([2; 2], None)]] 1) demo_sched))
   = [(0%nat, 1%nat, [1; 1])].
 Proof. vm_compute. reflexivity. Qed.
 
 (* two writers: W0 starts a write and stores the first word, W1 starts a write (the
    counter becomes even again), a reader then returns a half-written value *)
+Definition two_wqs : list (list wcall) := [[([1; 1], None)]; [([2; 2], None)]].
 Definition torn_sched : list tid :=
   [TW 0; TW 0; TW 0; TW 1; TR 0; TR 0; TR 0; TR 0; TR 0; TR 0; TR 0; TR 0].
 
 Lemma two_writers_torn :
-  let st := run 2 write_prog read_prog (init_state seq_init [0; 0] [[[1; 1]]; [[2; 2]]] 1) torn_sched in
+  let st := run 2 write_prog read_prog (init_state seq_init [0; 0] two_wqs 1) torn_sched in
   exists e, In e (log st) /\ e_val e = [1; 0] /\
-            ev_completeb [0; 0] [[[1; 1]]; [[2; 2]]] e = false.
+            ev_completeb [0; 0] two_wqs e = false.
 Proof. vm_compute. eexists. split; [left; reflexivity|]. split; reflexivity. Qed.
 
 Lemma two_writers_torn_not_complete :
   exists sched e,
     In e (log (run 2 write_prog read_prog
-                   (init_state seq_init [0; 0] [[[1; 1]]; [[2; 2]]] 1) sched)) /\
-    ~ In (e_val e) ([0; 0] :: concat [[[1; 1]]; [[2; 2]]]).
+                   (init_state seq_init [0; 0] two_wqs 1) sched)) /\
+    ~ In (e_val e) ([0; 0] :: map fst (concat two_wqs)).
 Proof.
   exists torn_sched. destruct two_writers_torn as (e & Hin & Hv & Hc).
   exists e. split; [exact Hin|]. intro H. apply ev_completeb_sound in H. congruence.
 Qed.
 
 Lemma read_complete_all : forall k init writes nr sched e,
-  length init = k -> Forall (fun v => length v = k) writes ->
+  length init = k -> Forall (fun w : wcall => length (fst w) = k) writes ->
   In e (log (run k write_prog read_prog (init_state seq_init init [writes] nr) sched)) ->
   exists c, (c <= e_done e)%nat /\ (e_done e <= length writes)%nat /\
-            e_val e = value init writes c.
+            e_val e = value k init writes c.
 Proof.
   intros k init writes nr sched e Hi Hw Hin.
   destruct (all_reads_ok k init writes Hi Hw nr sched e Hin) as (c & Hc & Hd & Hv).
@@ -509,11 +510,57 @@ Proof.
 Qed.
 
 Lemma read_not_stale_all : forall k init writes nr sched e,
-  length init = k -> Forall (fun v => length v = k) writes ->
+  length init = k -> Forall (fun w : wcall => length (fst w) = k) writes ->
   In e (log (run k write_prog read_prog (init_state seq_init init [writes] nr) sched)) ->
-  exists c, (e_c0 e <= c <= e_done e)%nat /\ e_val e = value init writes c.
+  exists c, (e_c0 e <= c <= e_done e)%nat /\ e_val e = value k init writes c.
 Proof.
   intros k init writes nr sched e Hi Hw Hin.
   destruct (all_reads_ok k init writes Hi Hw nr sched e Hin) as (c & Hc & Hd & Hv).
   exists c. split; [exact Hc | exact Hv].
 Qed.
+
+(* ---------- the counter is even whenever no write is in progress ---------- *)
+Lemma idle_even_all : forall k init writes nr sched,
+  length init = k -> Forall (fun w : wcall => length (fst w) = k) writes ->
+  let st := run k write_prog read_prog (init_state seq_init init [writes] nr) sched in
+  exists w, ws st = [w] /\
+            (wpc w = 0%nat -> seq (sh st) = 2 * N.of_nat (wdone w) /\ N.even (seq (sh st)) = true) /\
+            (wpc w <> 0%nat -> N.odd (seq (sh st)) = true).
+Proof.
+  intros k init writes nr sched Hi Hw st.
+  destruct (Inv_run k init writes Hi Hw sched _ (Inv_init k init writes Hi nr))
+    as (w & Hws & (_ & _ & _ & Hseq & _) & _).
+  exists w. split; [exact Hws|]. fold st in Hseq. split; intro Hp.
+  - rewrite Hp in Hseq. cbn [Nat.eqb] in Hseq. rewrite Hseq, N.add_0_r. split; [reflexivity|].
+    rewrite N.even_mul. reflexivity.
+  - destruct (Nat.eqb_spec (wpc w) 0); [contradiction|]. rewrite Hseq.
+    rewrite N.add_comm, N.odd_add_mul_2. reflexivity.
+Qed.
+
+(* non-vacuity with a panicking closure: write([1;1]) panics after its first word; write
+   closes the sequence all the same (the counter is even again), the cell holds [1;7] and a
+   later read returns exactly that value, the one the panicked call left behind (c = 1) *)
+Definition panic_sched : list tid :=
+  [TW 0; TW 0; TW 0; TW 0; TW 0; TR 0; TR 0; TR 0; TR 0; TR 0; TR 0; TR 0; TR 0;
+   TW 0; TW 0; TW 0; TR 0; TR 0].
+Example panic_nonvacuous :
+  let st := run 2 write_prog read_prog
+                (init_state seq_init [7; 7] [[([1; 1], Some 1%nat); ([2; 2], None)]] 1) panic_sched in
+  map (fun e => (e_c0 e, e_done e, e_val e)) (log st) = [(1%nat, 1%nat, [1; 7])] /\
+  value 2 [7; 7] [([1; 1], Some 1%nat); ([2; 2], None)] 1 = [1; 7] /\
+  map wdone (ws st) = [1%nat] /\ seq (sh st) = 3.
+Proof. vm_compute. repeat split; reflexivity. Qed.
+
+(* HISTORY / what the step language can tell apart: had the panic been re-raised BEFORE the
+   closing fetch_add (WResume in front of it), a panicking closure would leave the counter odd
+   for good: every later write then runs with an EVEN counter and a reader returns its
+   half-written cell *)
+Definition early_resume_prog : list winstr :=
+  [WFetchAdd 1 AcqRel; WFence Acquire; WCallF; WResume; WFence Release; WFetchAdd 1 Release].
+Example early_resume_is_torn :
+  let writes := [([1; 1], Some 0%nat); ([2; 2], None)] in
+  let st := run 2 early_resume_prog read_prog (init_state seq_init [7; 7] [writes] 1)
+                [TW 0; TW 0; TW 0; TW 0; TW 0; TW 0;
+                 TR 0; TR 0; TR 0; TR 0; TR 0; TR 0; TR 0; TR 0] in
+  map e_val (log st) = [[2; 7]] /\ forallb (ev_okb 2 [7; 7] writes) (log st) = false.
+Proof. vm_compute. split; reflexivity. Qed.
